@@ -281,7 +281,9 @@ def execute(pid, tier, seed, cases, assumptions, extra_cov=None, budget_s=None, 
     if broken: return 2
     # no clause may be left without a decided query
     if main_q and not any(r.get('status') in ('holds', 'fails') for r in main_q): return 2
-    if len(undecided) > (len(main_q) - len([n for n in skipped if not n.endswith('+witness') and not n.endswith('+cover')])) // 2: return 2
+    # quick tier: more than half of the admitted queries without a verdict means the machinery is not doing its job;
+    # thorough tier (long time-outs, admission budget): only a run in which nothing at all was decided is a fault
+    if tier == 'quick' and len(undecided) > (len(main_q) - len([n for n in skipped if not n.endswith('+witness') and not n.endswith('+cover')])) // 2: return 2
     return 0
 
 def generic_replay(path, mod=None):
